@@ -82,6 +82,9 @@ pub struct Cfg {
   /// `Options::with_maximum_retries` (library default 5)
   #[serde(default = "default_retries")]
   pub retries: u8,
+  /// the history is driven through a clone of the arena value (the original stays alive next to it)
+  #[serde(default)]
+  pub via_clone: bool,
 }
 
 fn default_retries() -> u8 {
@@ -101,6 +104,7 @@ impl Cfg {
       magic: 0,
       file_offset: 0,
       retries: 5,
+      via_clone: false,
     }
   }
 
